@@ -334,8 +334,6 @@ func (t *Terminal) clearLineToRight() {
 	t.queue(op)
 }
 
-const maxLineLength = 4096
-
 func (t *Terminal) setLine(newLine []rune, newPos int) {
 	if t.echo {
 		t.moveCursorToPos(0)
@@ -612,9 +610,9 @@ func (t *Terminal) handleKey(key rune) (line []string, ok bool) {
 		if !isPrintable(key) {
 			return
 		}
-		if len(t.line) == maxLineLength {
-			return
-		}
+		// no limit on the length of an entry: the buffer holds all lines of a
+		// statement and all statements of a line, and a key dropped in silence
+		// loses or mutilates a statement
 		t.addKeyToLine(key)
 	}
 	return
